@@ -28,6 +28,11 @@ Requests (after the `C16` token):
   grid's `_weights` is `None` or set
 * `file grid asdf|fits new|old <tree>`, `file field|basis asdf new <tree>` — the grid-file / ASDF
   layer with `AsdfLib.observed`: `ok sc=<T|F|-> w=<ok|kind> file=<tree|-> r=<ok|kind|-> out=<tree|->`
+* `guess <name>` — `_guess_file_format`: `ok asdf|fits|pickle|none`; `format <name> <fmt|->` — the format
+  a reader / writer ends up with: `ok <format>` or `err value|notimpl`
+* `filert grid|field|basis <c|f|-> <name> <fmt|-> <tree>` — `write_*(x, name, fmt)` then
+  `read_*(name, fmt)` (`writeGridFile` … `readBasisFile`; layout for the pickle of a field):
+  `ok w=<ok|kind> fam=<asdf|fits|pickle|-> r=<ok|kind|-> out=<tree|->`
 -/
 namespace HcipyVerif.Driver.C16
 open HcipyVerif.Proto HcipyVerif.Serial
@@ -160,7 +165,7 @@ def parseTree? (s : String) : Option Tree :=
   | _ => none
 
 def showErr : Err → String
-  | .key => "key" | .value => "value" | .type => "type" | .attr => "attr"
+  | .key => "key" | .value => "value" | .type => "type" | .attr => "attr" | .notImpl => "notimpl"
 
 def answer : Except Err Tree → String
   | .ok t => "ok " ++ showTree t
@@ -263,6 +268,46 @@ only case in which the ASDF layer hands back something else than what was stored
 def fileAnswer {α} (g : Option Grid) (w : Except Err Tree) (rd : Tree → Except Err α)
     (td : α → Except Err Tree) : String :=
   "ok sc=" ++ scFlag g ++ (fileAnswer' w rd td).drop 2
+
+def fmtShown : Option Fmt → String
+  | some f => f.name
+  | none => "none"
+
+def parseFmtArg (s : String) : Option String := if s == "-" then none else some s
+
+def storedFam {P} : Stored P → String
+  | .asdf _ => "asdf" | .fits _ => "fits" | .pickle _ => "pickle"
+
+/-- answer of `filert`: write status, the format of the file written, read status, object read -/
+def filertAnswer {P α} (w : Except Err (Stored P)) (rd : Stored P → Except Err α)
+    (td : α → Except Err Tree) : String :=
+  match w with
+  | .error e => s!"ok w={showErr e} fam=- r=- out=-"
+  | .ok c =>
+    let r := rd c
+    let out := match r with
+      | .ok x => match td x with
+        | .ok t => showTree t
+        | .error e => "toDict:" ++ showErr e
+      | .error _ => "-"
+    s!"ok w=ok fam={storedFam c} r={status r} out={out}"
+
+/-- `filert` for a field; a complex array (re/im interleaved on the wire) is a pair of real arrays of
+the same shape, dtype tag and layout: both go through the model, the results are interleaved again -/
+def filertField (l : Layout) (nm : List Char) (fm : Option String) (f : Field) : String :=
+  if f.values.dtype.startsWith "c" then
+    let (re, im) := deinterleave f.values.data
+    let fr : Field := { f with values := { f.values with data := re } }
+    let fi : Field := { f with values := { f.values with data := im } }
+    let wi := writeFieldFile AsdfLib.observed l nm fm fi
+    filertAnswer (writeFieldFile AsdfLib.observed l nm fm fr)
+      (fun c => do
+        let xr ← readFieldFile nm fm c
+        let xi ← wi.bind (readFieldFile nm fm)
+        pure ({ xr with values := { xr.values with data := interleave xr.values.data xi.values.data } } : Field))
+      (fun x => .ok x.toDict)
+  else
+    filertAnswer (writeFieldFile AsdfLib.observed l nm fm f) (readFieldFile nm fm) (fun x => .ok x.toDict)
 
 def step (st : St) : List String → St × String
   | ["dict", "gridold", t] =>
@@ -389,6 +434,33 @@ def step (st : St) : List String → St × String
       | .ok b => (st, fitsAnswer (writeBasisFitsOld b) readBasisFitsOld ModeBasis.toDict)
       | .error e => (st, "err " ++ showErr e)
     | _, _ => (st, "bad-op")
+  | ["guess", name] => (st, "ok " ++ fmtShown (guessFormat name.toList))
+  | ["format", name, fmt] =>
+    match formatOf name.toList (parseFmtArg fmt) with
+    | .ok f => (st, "ok " ++ f.name)
+    | .error e => (st, "err " ++ showErr e)
+  | ["filert", what, lay, name, fmt, t] =>
+    match parseTree? t with
+    | some t =>
+      let nm := name.toList
+      let fm := parseFmtArg fmt
+      if what == "grid" then
+        match decodeGrid t with
+        | .ok g => (st, filertAnswer (writeGridFile AsdfLib.observed nm fm g) (readGridFile nm fm)
+            (fun x => .ok x.toDict))
+        | .error e => (st, "err " ++ showErr e)
+      else if what == "field" then
+        match Field.fromDict t, parseLayout? lay with
+        | .ok f, some l => (st, filertField l nm fm f)
+        | .error e, _ => (st, "err " ++ showErr e)
+        | _, none => (st, "bad-op")
+      else if what == "basis" then
+        match ModeBasis.fromDict t with
+        | .ok b => (st, filertAnswer (writeBasisFile AsdfLib.observed nm fm b) (readBasisFile nm fm)
+            ModeBasis.toDict)
+        | .error e => (st, "err " ++ showErr e)
+      else (st, "bad-op")
+    | none => (st, "bad-op")
   | ["ravel", shape, idx] =>
     match parseNatList? shape, parseNatList? idx with
     | some s, some i =>
